@@ -160,7 +160,10 @@ Functions == {k \in Defs : Schema[k].section = "functions" /\ Schema[k].file = "
 MethodCase(k) ==
   LET call == Base(k, Bits(k), "full", <<>>) res == ResultVal(k) IN
   [name |-> Schema[k].name, idhex |-> Schema[k].idhex, call |-> Strip(call), callimg |-> C!EncObj(call),
-   reskind |-> ResultKind(k), res |-> Strip(res), resimg |-> C!EncVal(ResultDesc(k), res)]
+   reskind |-> ResultKind(k), res |-> Strip(res), resimg |-> C!EncVal(ResultDesc(k), res),
+   \* every constructor of the declared result type is a legitimate answer: the method's result type must admit each
+   resall |-> IF TypeCtors(Schema[k].resultbase) = {} THEN <<>>
+              ELSE LET cs == SetToSortSeq(TypeCtors(Schema[k].resultbase), <) IN [j \in 1..Len(cs) |-> Schema[cs[j]].idhex]]
 MethodCases == IF IOEnv.VERIF_METHODS = "" THEN <<>> ELSE [j \in 1..Cardinality(Functions) |-> MethodCase(SetToSeq(Functions)[j])]
 ASSUME IOEnv.VERIF_METHODS = "" \/ ndJsonSerialize(IOEnv.VERIF_METHODS, MethodCases)
 
